@@ -70,7 +70,7 @@ def run(ctx):
     ctx.assume += ["diagnostic = RuntimeError (incl. NotImplementedError), SystemExit with a message, DeprecationWarning, or an exception "
                    "raised by an explicit raise statement of that class; anything else (AttributeError, TypeError, KeyError, IndexError, "
                    "ValueError, OverflowError ...) is an internal failure",
-                   "fuel adequacy of the parser model (termination) is not proved; an OutOfFuel answer of the model counts as a broken correspondence",
+                   "termination is a theorem about the model (fuel adequacy); for the implementation every case runs under a 20 s alarm and a hang is reported as a failing input",
                    "floating point attribute values: only their truth value is modelled (rank=<real> is excluded from the correspondence)"]
     ctx.hygiene()
     ctx.static_build()
